@@ -318,7 +318,7 @@ func runJob(w *hx.Worker, j job, maxLen int, only string) {
 	nShort := len(ins)
 	// a few longer inputs that contain several token types at once (identifier, string, number, comment)
 	ins = append(ins, `a "b" c`, `"x" y`, `a "b`, `b 1 "c" a`, "a \"b\"\n c", `c "c" c`)
-	ins = append(ins, "A b", "a B A", "B", strings.Repeat("a", 100)+" b", "b "+strings.Repeat("c", 5000), strings.Repeat("a ", 1100))
+	ins = append(ins, "\ufeffa b", "a \ufeff b", "A b", "a B A", "B", strings.Repeat("a", 100)+" b", "b "+strings.Repeat("c", 5000), strings.Repeat("a ", 1100))
 	if j.k.name == "text/scanner" {
 		ins = append(ins, "a /* x */ \"b\"", "a // x\n b")
 	} else {
